@@ -31,7 +31,9 @@ def gen_case(rng, tier):
                 w = HX.gen_write(rng, models[i].keys())
                 inner.append(w)
                 HX.apply_model(models[i], w)
-            ops.append((i, ("batch", inner, None)))
+            # part of the block may be a block of its own on the batch trie (which prunes: its deletes must stop at the
+            # enclosing buffer and never reach the non-pruning trie's database)
+            ops.append((i, ("batch", HX.nest_some(rng, inner, 0.4), None)))
         elif r < 0.9:
             # a write (direct or batched) during which the store fails at some write index
             budget = rng.randint(0, 5)
@@ -39,7 +41,7 @@ def gen_case(rng, tier):
             if rng.random() < 0.5:
                 ops.append((i, HX.gen_write(rng, models[i].keys())))
             else:
-                ops.append((i, ("batch", [HX.gen_write(rng, models[i].keys()) for _ in range(rng.randint(1, 3))], None)))
+                ops.append((i, ("batch", HX.nest_some(rng, [HX.gen_write(rng, models[i].keys()) for _ in range(rng.randint(1, 3))], 0.3), None)))
             ops.append((i, ("budget", None)))
             # the model mapping is reconstructed from the observed outcome by the oracle
         else:
